@@ -7,7 +7,8 @@ gccphat_res_t gccphat(const arr_real& sig, const arr_real& refsig, int fs) {
     auto X1 = fft(sig);
     auto X2 = conj(fft(refsig));
     auto Y = X1 * X2;
-    const auto R = ifft(Y / abs(Y));
+    //phase transform: a bin without energy gets weight 0 (not 0/0)
+    const auto R = ifft(Y / (abs(Y) + eps()));
     const auto n = argmax(R);
     const int M = R.size();
     const int M2 = R.size() / 2;
@@ -36,7 +37,8 @@ gccphat_res_ch_t gccphat(const std::vector<arr_real>& sig, const arr_real& refsi
     for (size_t i = 0; i < sig.size(); i++) {
         auto X1 = fft(sig[i]);
         auto Y = X1 * X2;
-        const auto R = ifft(Y / abs(Y));
+        //phase transform: a bin without energy gets weight 0 (not 0/0)
+        const auto R = ifft(Y / (abs(Y) + eps()));
         const auto n = argmax(R);
         auto peak = peakloc(R, n);
         real_t delay = 0;
